@@ -167,7 +167,10 @@ EXTRA = {
         "name touches a copula or the budget brackets is computed from the tables (T-JUXTAPOSE, T-BUDGET-IDENT): the Han collisions are recorded as known findings.",
  "C02": " Also: name/copula juxtaposition (T-JUXTAPOSE, 7 Han known findings) and formatter/parser arity agreement (A-ARITY-LEX, zero-component compound/set known findings).",
  "C03": " Also: full-match keyword recognition (P-FULLMATCH, D9) and `suffix items are cut only off a sentence` (S-SUFFIX, D11 fixed).",
- "C05": " Also: every use of [char]::starts_with_str, which is true for a slice that ends inside the needle, is length-guarded (P-FULLMATCH, panic D10 fixed).",
+ "C05": " Also: every use of [char]::starts_with_str, which is true for a slice that ends inside the needle, is length-guarded (P-FULLMATCH, panic D10 fixed); "
+        "B-LEN proves the border invariant by assume/guarantee over 16 functions (every returned border <= len(env), every slice upper bound) with a small set of "
+        "inequality rules over copy-resolved MIR; L-ONCE forbids a second attempt of a recursion-cycle member over the same slice (exponential backtracking).",
+ "C04": " Also L-ONCE: after a member of the recursion cycle failed, no member is called again before an unconditional cursor advance (no exponential retry).",
  "C09": " Also: P-FULLMATCH (a trailing space after a bare atom, D9), S-SUFFIX (D11) and T-JUXTAPOSE (removing the space between a name and a copula must not move the "
         "token boundary: 12 Han known findings).",
  "C10": " Also: a written derived copula stays the copula that is read when the subject name touches it (T-JUXTAPOSE; Han 具+有 known finding in both pipelines).",
